@@ -135,7 +135,15 @@ def generate(repo):
     item_defaults = sig_defaults(OsuHit) + sig_defaults(OsuHold) + sig_defaults(OsuBpm) + sig_defaults(OsuSv) + sig_defaults(OsuSample)
     keys = _key_table(OsuMapMeta)
     tmpl = _write_template(OsuMapMeta)
-    shape = [(a, ("g" if b.endswith(":g") else "uni" if b.startswith("unidecode(") else "*" if a == "*" else ""), c)
+    num_fn = getattr(inspect.getmodule(OsuMapMeta), "_num", None)
+    if num_fn is None:
+        num_body = "(no _num helper in the source)"
+    else:
+        fn = ast.parse(textwrap.dedent(inspect.getsource(num_fn))).body[0]
+        body = fn.body[1:] if isinstance(fn.body[0], ast.Expr) and isinstance(fn.body[0].value, ast.Constant) else fn.body
+        num_body = "; ".join(ast.unparse(st) for st in body)
+    shape = [(a, ("num" if b.startswith("_num(") else "g" if b.endswith(":g") else "uni" if b.startswith("unidecode(")
+                  else "*" if a == "*" else ""), c)
              for a, b, c in tmpl]
 
     def pairs(xs, f):
@@ -175,7 +183,10 @@ def metaKeyTable : List (String × String × String) :=
 def metaWriteTemplate : List (String × String × String) :=
   {triples(tmpl)}
 
-/-- the same lines as (prefix, "g" | "uni" | "", suffix): what the model's `writeMeta` must reproduce -/
+/-- body of the `_num` helper that renders numeric metadata (`Tok.num` in the model) -/
+def numHelperBody : String := {string(num_body)}
+
+/-- the same lines as (prefix, "num" | "uni" | "", suffix): what the model's `writeMeta` must reproduce -/
 def metaWriteShape : List (String × String × String) :=
   {triples(shape)}
 
